@@ -255,7 +255,7 @@ func (s *scan) newFile(tag uint64) error {
 const (
 	// Inputs whose largest length claim is above runLimit are not executed unless the claim is above
 	// panicLimit, where runtime.makeslice panics before allocating anything (maxAlloc = 2^48).
-	runLimit   = 1 << 12
+	runLimit   = 1 << 16
 	panicLimit = 1 << 48
 )
 
